@@ -58,7 +58,12 @@ TRUSTED = ["numpy semantics (bincount, boolean-mask indexing and assignment, whe
            "ties of numpy.argsort are not compared literally: ordered_members_map and get_rank observations are "
            "canonicalised within runs of equal keys before the comparison with the model's stable sort; the "
            "oracle checks the raw answers"]
-ASSUMPTIONS = ["SCALE stream (2 cases per quick run: one group of 33000-40000 members next to small ones; 66000-70000 "
+ASSUMPTIONS = ["call-history cases: on ONE simulation every aggregation primitive is called, each returned array is then "
+               "edited in place by the caller (x[x == 0] = 1, x -= 1, fill), the same calls are repeated on the same "
+               "objects and a third time on simulation.clone(); the three passes are sent to the model and to the oracle "
+               "as the same operations three times (members_position / ordered_members_map are attributes exposing the "
+               "population's own arrays and are not edited)",
+               "SCALE stream (2 cases per quick run: one group of 33000-40000 members next to small ones; 66000-70000 "
                "single-person groups built by the real SimulationBuilder): ORACLE ONLY -- the model receives the empty "
                "case `Multi []`; the oracle recomputes positions (summary + samples), sum / nb_persons (with and without "
                "role), two of min / max / all, value_nth_person at 0, 32767, 32768, last, last+1, resp. sum / nb_persons / "
@@ -341,11 +346,49 @@ def run_impl(c):
     if c["op"] == "multi":
         # every step on the SAME simulation, in order; a step that raises is recorded and
         # the following ones still run
-        return [guarded(run_step, sim, s, st) for st in c["steps"]]
+        if not c.get("history"):
+            return [guarded(run_step, sim, s, st) for st in c["steps"]]
+        # call history: the array RETURNED by every primitive is scribbled over in place by the
+        # caller (as formulas do: `size = household.nb_persons(); size[size == 0] = 1`), then
+        # the same primitives are asked again -- on the same objects, then on a clone
+        out = []
+        for p in range(c["passes"]):
+            if p == 2:
+                sim = sim.clone()
+            for j, st in enumerate(c["steps"]):
+                got = []
+                out.append(guarded(run_step, sim, s, st, got.append))
+                for raw in got:
+                    scribble(raw, c["scribble"] + j + p)
+        return out
     return run_step(sim, s, c)
 
 
-def run_step(sim, s, c):
+def scribble(raw, mode):
+    """What a caller may do to an array it was given."""
+    if not isinstance(raw, numpy.ndarray) or raw.size == 0 or raw.dtype == object:
+        return
+    if raw.dtype == bool:
+        raw[...] = ~raw if mode % 2 else True
+    elif mode % 3 == 0:
+        raw[raw == 0] = 1
+    elif mode % 3 == 1:
+        raw -= 1
+    else:
+        raw[...] = 7
+
+
+def _same(r):
+    return r
+
+
+
+def run_step(sim, s, c, keep=None):
+    keep_ = keep or _same
+
+    def kept(r):
+        keep_(r)
+        return r
     op = c["op"]
     kind = c.get("kind", "int")
     sc = scale_of(kind)
@@ -356,33 +399,33 @@ def run_step(sim, s, c):
             obj = getattr(obj, name)
         arr = mk_array(c["vals"], kind, wide)
         if c["term"] == 0:
-            return enc_values(obj.transform_and_bubble_up(arr), sc)
+            return enc_values(kept(obj.transform_and_bubble_up(arr)), sc)
         # the role (if any) belongs to the entity the path ends on
         ref = obj.reference_entity
         k_end = next((k for k, g in enumerate(s.groups) if g.key == ref.entity.key), None)
         role = None if c["role"] is None or k_end is None else s.role(k_end, c["role"])
         if c["term"] == 1:
-            return enc_values(obj.sum(arr, role=role), sc)
-        return enc_values(obj.nb_persons(role=role), 1)
+            return enc_values(kept(obj.sum(arr, role=role)), sc)
+        return enc_values(kept(obj.nb_persons(role=role)), 1)
     k = c["k"]
     pop = sim.populations[s.groups[k].key]
     role = None if c.get("role") is None else s.role(k, c["role"])
     if op in ("sum", "any", "all", "min", "max"):
         arr = mk_array(c["vals"], kind, wide)
-        r = getattr(pop, op)(arr, role=role)
+        r = kept(getattr(pop, op)(arr, role=role))
         return enc_bools(r) if op in ("any", "all") else enc_values(r, sc)
     if op == "nb":
-        return enc_ints(pop.nb_persons(role=role))
+        return enc_ints(kept(pop.nb_persons(role=role)))
     if op == "vfp":
-        return enc_values(pop.value_from_person(mk_array(c["vals"], kind, wide), role,
-                                                default=mk_default(c["default"], kind)), sc)
+        return enc_values(kept(pop.value_from_person(mk_array(c["vals"], kind, wide), role,
+                                                     default=mk_default(c["default"], kind))), sc)
     if op == "nth":
-        return enc_values(pop.value_nth_person(c["n"], mk_array(c["vals"], kind, wide),
-                                               default=mk_default(c["default"], kind)), sc)
+        return enc_values(kept(pop.value_nth_person(c["n"], mk_array(c["vals"], kind, wide),
+                                                    default=mk_default(c["default"], kind))), sc)
     if op == "first":
-        return enc_values(pop.value_from_first_person(mk_array(c["vals"], kind, wide)), sc)
+        return enc_values(kept(pop.value_from_first_person(mk_array(c["vals"], kind, wide))), sc)
     if op == "project":
-        return enc_values(pop.project(mk_array(c["vals"], kind, wide), role=role), sc)
+        return enc_values(kept(pop.project(mk_array(c["vals"], kind, wide), role=role)), sc)
     if op == "positions":
         return enc_ints(pop.members_position)
     if op == "omm":
@@ -390,8 +433,8 @@ def run_step(sim, s, c):
     if op == "rank":
         crit = mk_array(c["vals"], kind, wide)
         if c["cond"] is None:
-            return enc_ints(sim.persons.get_rank(pop, crit))
-        return enc_ints(sim.persons.get_rank(pop, crit, condition=numpy.array(c["cond"], dtype=bool)))
+            return enc_ints(kept(sim.persons.get_rank(pop, crit)))
+        return enc_ints(kept(sim.persons.get_rank(pop, crit, condition=numpy.array(c["cond"], dtype=bool))))
     raise ValueError(op)
 
 
@@ -409,7 +452,8 @@ def cworld(w):
 
 def steps_of(c):
     """The single-operation cases of a multi case (they share its world)."""
-    return [dict(st, w=c["w"], shape=c.get("shape", "?")) for st in c["steps"]]
+    steps = c["steps"] * c["passes"] if c.get("history") else c["steps"]
+    return [dict(st, w=c["w"], shape=c.get("shape", "?")) for st in steps]
 
 
 def coq_case(c):
@@ -592,8 +636,14 @@ def oracle(c, o):
         for j, (st, oi) in enumerate(zip(steps_of(c), o)):
             msg = oracle(st, oi)
             if msg:
-                order = " then ".join(f"{x['op']}@{x.get('k')}/{x.get('role')}" for x in c["steps"][: j + 1])
-                return f"{msg}  [step {j} of one simulation: {order}]"
+                sts = steps_of(c)
+                order = " then ".join(f"{x['op']}@{x.get('k')}/{x.get('role')}" for x in sts[: j + 1])
+                hist = ""
+                if c.get("history"):
+                    m = len(c["steps"])
+                    hist = (f"; call history: pass {j // m} (0 = fresh, 1 = after every returned array was edited in "
+                            f"place by the caller, 2 = on a clone), step {j % m}")
+                return f"{msg}  [step {j} of one simulation: {order}{hist}]"
         return None
     w = c["w"]
     s = SYSTEMS[w["sys"]]
@@ -917,6 +967,47 @@ def multi_cases(rng, w, shape, how_many=2):
     return out
 
 
+def history_case(rng, w, shape):
+    """Every aggregation primitive on one population, the returned arrays edited in place by
+    the caller, every primitive again, then again on a clone."""
+    s = SYSTEMS[w["sys"]]
+    n = len(w["groups"][0]["ids"])
+    k = rng.randrange(len(s.groups))
+    steps = [{"op": "nb", "k": k, "role": None}]
+    ops = ["sum", "any", "all", "min", "max", "nb", "vfp", "nth", "first", "project", "rank", "nth", "sum"]
+    for op in ops:
+        if n == 0 and op in NEEDS_A_PERSON and not INCLUDE_ZERO_PERSONS:
+            continue
+        kk = k if rng.random() < 0.85 else 1 - k
+        if op == "rank":
+            kind = rng.choice(["int", "i64"])
+            steps.append({"op": "rank", "k": kk, "kind": kind, "wide": True, "vals": gen_vals(rng, n, kind),
+                          "cond": None if rng.random() < 0.5 else [rng.random() < 0.7 for _ in range(n)]})
+        elif op == "nth":
+            kind = rng.choice(SEL_KINDS)
+            steps.append({"op": "nth", "k": kk, "kind": kind, "wide": True, "vals": gen_vals(rng, n, kind),
+                          "n": rng.choice([0, 1, 2]), "default": gen_default(rng, kind)})
+        elif op == "first":
+            kind = rng.choice(SEL_KINDS)
+            steps.append({"op": "first", "k": kk, "kind": kind, "wide": True, "vals": gen_vals(rng, n, kind)})
+        else:
+            r = pick_role(rng, s, kk, unique_only=(op == "vfp"), allow_none=(op != "vfp"))
+            if r is None:
+                if op == "nb":
+                    st = {"op": "nb", "k": kk, "role": None}
+                else:
+                    st = gen_step(rng, s, w, kk, op, 0)
+                    st["role"] = None
+            else:
+                st = gen_step(rng, s, w, kk, op, r)
+            steps.append(st)
+    head, tail = steps[:1], steps[1:]
+    rng.shuffle(tail)
+    steps = head + tail if rng.random() < 0.6 else tail + head
+    return {"op": "multi", "history": True, "passes": 3, "scribble": rng.randrange(6), "steps": steps,
+            "w": w, "shape": shape + "+history"}
+
+
 def inf_cases(rng, w, shape):
     """Float arrays in which members OUTSIDE the requested role hold +inf / -inf (what min /
     max return for a group without the role, once projected back on its persons; 'no
@@ -1018,6 +1109,7 @@ def world_cases(rng, w, shape, heavy=True):
             add({"op": "chain", "start": start, "path": path, "term": term, "kind": kind, "wide": True,
                  "vals": gen_vals(rng, n, kind) if term == 1 else [], "role": pick_role(rng, s, end)})
     out += multi_cases(rng, w, shape, 2 if heavy else 1)
+    out.append(history_case(rng, w, shape))
     if n > 0:
         out += inf_cases(rng, w, shape)
     return out
